@@ -158,8 +158,72 @@ fn judge(c: &Case, cls: &mut Classifier) -> Verdict {
     }
 }
 
+// ---------------------------------------------------------------- CLI sample: printed key material
+
+#[derive(Clone, Debug, Serialize, Deserialize)]
+pub struct CliCase {
+    pub entropy_hex: String,
+    pub account_index: u32,
+}
+
+fn judge_cli(c: &CliCase, cls: &mut Classifier) -> Verdict {
+    use crate::cli::Invocation;
+    use crate::refimpl::{bip32, bip39};
+    let Some(e) = unhex(&c.entropy_hex).filter(|e| matches!(e.len(), 16 | 20 | 24 | 28 | 32)) else { return fail("entropy", c.entropy_hex.clone(), "bad case") };
+    let phrase = bip39::encode_phrase(&e);
+    let seed = bip39::seed_from_normalised(&phrase, "");
+    let key = bip32::derive(&seed, &bip32::default_path(c.account_index)).expect("reference key");
+    let p = secp::mul_g(&key).expect("valid");
+    let idx = c.account_index.to_string();
+    for (sub, want) in [
+        ("public-key", format!("0x{}\n", hex_lower(&secp::uncompressed(&p)))),
+        ("address", format!("{}\n", eip55(&address_of(&p)))),
+        ("export", format!("0x{}\n", hex_lower(&key))),
+    ] {
+        let inv = Invocation::new(&[sub, "--mnemonic", &phrase, "--account-index", &idx]);
+        let Some(out) = crate::cli::run_global(&inv) else { return fail("cli", "not configured", "CLI not available") };
+        if out.timed_out {
+            cls.label("timed-out");
+            return Ok(());
+        }
+        if !out.ok() || out.stdout_str() != want {
+            return fail(want, out.describe(), format!("`hdwallet {sub} --account-index {idx}` for mnemonic {phrase:?} (secret {})", hex_lower(&key)));
+        }
+    }
+    cls.label("cli-keys");
+    if p.x[0] >> 4 == 0 {
+        cls.label("cli-x-leading-zero-nibble");
+    }
+    if p.y[0] >> 4 == 0 {
+        cls.label("cli-y-leading-zero-nibble");
+    }
+    if key[0] >> 4 == 0 {
+        cls.label("cli-secret-leading-zero-nibble");
+    }
+    if address_of(&p)[0] >> 4 == 0 {
+        cls.label("cli-address-leading-zero-nibble");
+    }
+    cls.nontrivial(&(c.entropy_hex.as_str(), c.account_index));
+    Ok(())
+}
+
+/// account indices (0..64) of a mnemonic whose X, Y, secret or address start with a zero nibble
+fn interesting_indices(entropy: &[u8]) -> Vec<u32> {
+    use crate::refimpl::{bip32, bip39};
+    let seed = bip39::seed_from_normalised(&bip39::encode_phrase(entropy), "");
+    let mut out = vec![];
+    for i in 0..64u32 {
+        let key = bip32::derive(&seed, &bip32::default_path(i)).expect("reference key");
+        let p = secp::mul_g(&key).expect("valid");
+        if p.x[0] >> 4 == 0 || p.y[0] >> 4 == 0 || key[0] >> 4 == 0 || address_of(&p)[0] >> 4 == 0 {
+            out.push(i);
+        }
+    }
+    out
+}
+
 pub fn run(ctx: &mut Ctx) {
-    ctx.rule = "(i) 32-byte scalars in [1,n-1] from {1,2,3,n-1..n-3,(n-1)/2,(n+1)/2,2^k-1,2^k,2^k+1,leading-zero,uniform}; (ii) out-of-range 32-byte values {0,n,n+1,n+2,2^256-1,uniform in [n,2^256)}; (iii) every length 0..=64 with zero-padded / random / all-zero / all-0xff content. Oracle: independent secp256k1 scalar multiplication, sha3 Keccak, own EIP-55. Non-trivial: not the Ganache test key; distinct by scalar.".into();
+    ctx.rule = "(i) 32-byte scalars in [1,n-1] from {1,2,3,n-1..n-3,(n-1)/2,(n+1)/2,2^k-1,2^k,2^k+1,leading-zero,uniform}; (ii) out-of-range 32-byte values {0,n,n+1,n+2,2^256-1,uniform in [n,2^256)}; (iii) every length 0..=64 with zero-padded / random / all-zero / all-0xff content. Oracle: independent secp256k1 scalar multiplication, sha3 Keccak, own EIP-55. CLI sample: `public-key`, `address` and `export` for the accounts (indices 0..64 of generated mnemonics) whose X, Y, secret or address start with a zero nibble must print the reference values in full width. Non-trivial: not the Ganache test key; distinct by scalar.".into();
     ctx.assumptions = vec!["reference secp256k1 agrees with k256 on the selftest sample (two independent implementations)".into()];
     ctx.replay_known_and_regressions(&replay);
     let n = ctx.tier.pick(50_000, 500_000);
@@ -220,6 +284,25 @@ pub fn run(ctx: &mut Ctx) {
     }
     ctx.run_cases("lengths", &lens, judge);
     ctx.exhaustive_parts.push("input lengths 0..=64 (8 contents each)".into());
+    if crate::cli::global_cli().is_some() {
+        let mut cc = vec![];
+        for m in 0..ctx.tier.pick(2, 20) as u64 {
+            let e = crate::engine::Prng::new(ctx.sub_seed("cli", m)).bytes(16);
+            for i in interesting_indices(&e) {
+                cc.push(CliCase { entropy_hex: hex_lower(&e), account_index: i });
+            }
+            cc.push(CliCase { entropy_hex: hex_lower(&e), account_index: 0 });
+        }
+        ctx.run_cases("cli-keys", &cc, judge_cli);
+        if ctx.cls.count("timed-out") > 0 {
+            ctx.inconclusive("CLI watchdog expired");
+        }
+        ctx.floor_abs("cli-x-leading-zero-nibble", 3);
+        ctx.floor_abs("cli-y-leading-zero-nibble", 3);
+        ctx.floor_abs("cli-secret-leading-zero-nibble", 3);
+    } else {
+        ctx.inconclusive("CLI executable not available for the printed-key sample");
+    }
     ctx.floor_abs("out-of-range-32", 5);
     ctx.floor_abs("valid-32", n as u64 / 2);
 }
@@ -227,6 +310,7 @@ pub fn run(ctx: &mut Ctx) {
 pub fn replay(sub: &str, case: &Value) -> Option<Verdict> {
     match sub {
         "valid" | "out-of-range" | "lengths" => Some(replay_as::<Case>(case, judge)),
+        "cli-keys" => Some(replay_as::<CliCase>(case, judge_cli)),
         _ => None,
     }
 }
